@@ -163,6 +163,97 @@ def _align_ok(ctx, v, tyname, sizev, alignv):
     return True, cases[0], ''
 
 
+def _data_mk(cg, fl, fcommon, has_init, tyname):
+    """initial state of an emit_data exploration: the object under test (flags fl) followed by one plain definition"""
+    def mk(ctx):
+        ctx.c15_fcommon = fcommon
+        v = Obj('Obj', lazy=True, label='var')
+        v.fields.update(fl)
+        v.fields['name'] = Sym('var.name', 'char *')
+        v.fields['align'] = Sym('var.align', 'int')
+        v.fields['ty'] = _tyobj(cg, 'var.ty', tyname)
+        v.fields['init_data'] = _nonnull_sym(ctx, 'var.init_data', 'char *') if has_init else 0
+        v.fields['rel'] = 0          # relocations inside initialisers belong to C05
+        w = Obj('Obj', lazy=True, label='next')
+        w.fields.update(dict(is_function=0, is_definition=1, is_static=0, is_tentative=0, is_tls=0, init_data=0, next=0))
+        w.fields['name'] = Sym('next.name', 'char *')
+        w.fields['align'] = Sym('next.align', 'int')
+        w.fields['ty'] = _tyobj(cg, 'next.ty', 'int')
+        v.fields['next'] = w
+        ctx.c15_var = v
+        return [v]
+    return mk
+
+
+class _Scratch:
+    """a report that keeps nothing: lets the path judgement of R15.1 be reused as a predicate"""
+    def ob(self, *a, **kw): pass
+    def undecided(self, *a, **kw): pass
+
+
+def _emitted_where_declared(cg, fl, has_init):
+    """Does emit_data, evaluated on an object with exactly the flags `fl` (a state R15.1 does not judge because the parser is not
+    supposed to build it), still put the object where its declaration demands -- section by (initialiser, _Thread_local), never a common
+    symbol for a thread-local or initialised object -- under -fcommon and under -fno-common?  (True, '') | (False, why) | (None, why)"""
+    if 'emit_data' not in cg.cu.functions:
+        return None, 'emit_data vanished'
+    it = cg.interp()
+    it.global_init['opt_fcommon'] = lambda ctx: ctx.c15_fcommon
+    want = ('tdata' if fl['is_tls'] else 'data') if has_init else ('tbss' if fl['is_tls'] else 'bss')
+    NAME1, NAME2 = ('sym', 'var.name'), ('sym', 'next.name')
+    for fcommon in (1, 0):
+        res = _explore(it, 'emit_data', _data_mk(cg, fl, fcommon, has_init, 'int'))
+        rets = [(c, o) for c, o in res if o[0] == 'ret']
+        if not rets or len(rets) != len(res):
+            return None, 'emit_data has %d returning of %d paths on this state' % (len(rets), len(res))
+        for ctx, out in rets:
+            ag = Agg(_Scratch(), 'R15.1', CGU, 'emit_data')
+            _judge_data_path(it, ctx, ag, want, fl, fcommon, has_init, 'int', NAME1, NAME2, 0)
+            if ag.und:
+                return None, '; '.join(w for w, _ in ag.und.values())
+            bad = [k for k, v in ag.d.items() if not v[0]]
+            if bad:
+                mine = []
+                for l in lines_of(it, ctx):
+                    if l.mentions(NAME2):
+                        break
+                    if l.kind != 'blank':
+                        mine.append(l.text.strip())
+                return False, 'under %s emit_data turns this state into `%s` instead of an object in .%s (%s)' % (
+                    '-fcommon (the default)' if fcommon else '-fno-common', '; '.join(mine[:5]) or 'nothing', want, bad[0])
+    return True, ''
+
+
+def _judge_built_state(cg, ag, prefix, what, F, tls, has_init, fline, facts):
+    """R15.1 verifies emit_data on the flag combinations the parser is supposed to build and leaves the others unjudged (a tentative
+    object that is thread-local or initialised: emit_data may then take the common-symbol exit before it looks at is_tls / init_data).
+    That exclusion is an obligation of every parser site that puts an object on `globals`: the state it builds is either inside the
+    verified domain, or emit_data -- evaluated on exactly that state -- still places the object where the declaration demands."""
+    cls = '%s/%s' % ('thread-local' if tls else 'ordinary', 'initialised' if has_init else 'no-initialiser')
+    key = '%s/emitted-where-declared/%s' % (prefix, cls)
+    t = F('is_tentative')
+    flags = {k: F(k) for k in ('is_function', 'is_definition', 'is_static', 'is_tentative', 'is_tls')}
+    if not all(isinstance(v, int) for v in flags.values()):
+        ag.undecided(key, 'the flags of %s are not concrete after the declaration: %r' % (what, flags), fline)
+        return
+    flags = {k: int(bool(v)) for k, v in flags.items()}
+    if not t or not (flags['is_tls'] or has_init):
+        # inside the domain R15.1 judges (a tentative ordinary object without initialiser is a local/global common symbol or .bss: same storage)
+        ag.note(key, True)
+        return
+    ok, why = _emitted_where_declared(cg, flags, has_init)
+    if ok is None:
+        ag.undecided(key, '%s is flagged is_tentative although it is %s, and emit_data could not be evaluated on that state: %s' % (
+            what, 'thread-local' if flags['is_tls'] else 'initialised', why), fline)
+        return
+    ag.note(key, ok,
+            '%s (%s) is flagged is_tentative although it %s; %s -- %s; the -fcommon and -fno-common configurations disagree' % (
+                what, cls.replace('/', ', '), 'is thread-local' if flags['is_tls'] else 'has an initialiser', why,
+                'there are no thread-local common symbols: the object gets ordinary storage shared by all threads while gen_addr still addresses it through '
+                '@tpoff/@tlsgd (the assembler rejects the unit)' if flags['is_tls'] else 'a common symbol is zero-filled: the initialiser is lost'),
+            fline, facts)
+
+
 def r151(cg, rep):
     rep.rule('R15.1', 'emit_data decision table: an object is skipped iff it is a function or not a definition; every emitted object gets '
              'local binding iff is_static (else .globl), declared before its .comm/label; .comm iff -fcommon and tentative; else '
@@ -190,23 +281,7 @@ def r151(cg, rep):
                         continue
                     cls = _data_class(fl, fcommon, has_init)
 
-                    def mk(ctx, fl=fl, fcommon=fcommon, has_init=has_init, tyname=tyname):
-                        ctx.c15_fcommon = fcommon
-                        v = Obj('Obj', lazy=True, label='var')
-                        v.fields.update(fl)
-                        v.fields['name'] = Sym('var.name', 'char *')
-                        v.fields['align'] = Sym('var.align', 'int')
-                        v.fields['ty'] = _tyobj(cg, 'var.ty', tyname)
-                        v.fields['init_data'] = _nonnull_sym(ctx, 'var.init_data', 'char *') if has_init else 0
-                        v.fields['rel'] = 0          # relocations inside initialisers belong to C05
-                        w = Obj('Obj', lazy=True, label='next')
-                        w.fields.update(dict(is_function=0, is_definition=1, is_static=0, is_tentative=0, is_tls=0, init_data=0, next=0))
-                        w.fields['name'] = Sym('next.name', 'char *')
-                        w.fields['align'] = Sym('next.align', 'int')
-                        w.fields['ty'] = _tyobj(cg, 'next.ty', 'int')
-                        v.fields['next'] = w
-                        ctx.c15_var = v
-                        return [v]
+                    mk = _data_mk(cg, fl, fcommon, has_init, tyname)
                     res = _explore(it, 'emit_data', mk)
                     rets = [(c, o) for c, o in res if o[0] == 'ret']
                     if not rets or len(rets) != len(res):
@@ -1474,6 +1549,17 @@ def r155_scan_globals(pe, rep):
         if not ok_chain or foreign:
             continue
         pos = [next(i for i, x in enumerate(objs) if x is o) for o in outl]
+        # scan_globals decides which objects stay; it does not redefine what they are
+        changed = []
+        for o, (nm, k) in zip(objs, lst):
+            was = dict(name=nm, is_function=int(k == 'F'), is_definition=int(k != 'E'), is_tentative=int(k == 'T'), is_static=static, is_tls=0)
+            for f, w in was.items():
+                now = _final(it, o.fields.get(f))
+                if now != w:
+                    changed.append('%s.%s: %r -> %r' % (o.label, f, w, now))
+        ag.note('result/objects-unchanged', not changed,
+                'on %s scan_globals rewrites the linkage/storage flags of the objects it walks (%s): emit_data then emits an object that is not the one declared '
+                '(a definition turned tentative becomes a .comm symbol under -fcommon, a tentative one turned definite clashes with the same tentative definition of another unit)' % (desc, ', '.join(changed[:4])), fline, facts)
         ag.note('result/order-kept', pos == sorted(pos), 'on %s the surviving objects change order: %s' % (desc, facts['output']), fline, facts)
         kept = set(pos)
         lost = [objs[i].label for i, (nm, k) in enumerate(lst) if k != 'T' and i not in kept]
@@ -1630,12 +1716,188 @@ def r156(pe, rep):
                 ag.note('static-local/thread-local-flag/%s' % ('thread-local' if tls else 'ordinary'), F('is_tls') == tls,
                         ('`static _Thread_local` at block scope creates an ordinary static object (is_tls stays %r): it is placed in .data/.bss and shared by all threads instead of being per-thread' % F('is_tls')) if tls else
                         'an ordinary block-scope static object is flagged thread-local', fline, facts)
+                _judge_built_state(pe.cg, ag, 'static-local', 'a block-scope static object', F, tls, has_init, fline, facts)
                 inits = [e for e in ctx.events if e[0] == 'init']
                 ag.note('static-local/initializer', (len(inits) == 1 and inits[0][1] is g) if has_init else not inits,
                         'the initialiser of a block-scope static object is %s' % ('not evaluated at translation time into the object (gvar_initializer calls: %d)' % len(inits) if has_init else 'invented'), fline, facts)
     if n == 0:
         raise AnalysisBroken('declaration(): static-local arm not reached')
     ag.flush(fline)
+    for fns, f in ((('postfix', 'gvar_initializer'), r156_compound_literal), (('gvar_initializer',), r156_gvar_initializer), ((), r156_flag_writers)):
+        try:
+            _need(u, PU, *fns)
+            f(pe, rep, keep)
+        except AnalysisBroken as e:
+            rep.undecided('R15.6', '%s:%s:analysis' % (PU, fns[0] if fns else 'is_tentative-writers'), 'part of the rule could not be evaluated: %s' % e)
+
+
+def r156_compound_literal(pe, rep, keep):
+    """postfix(): `(T){...}` at file scope or inside the initialiser of a static object is an anonymous static object like a string literal;
+    inside a function body it is an automatic object"""
+    u = pe.u
+    ag = Agg(rep, 'R15.6', PU, 'postfix')
+    fline = u.fn('postfix').line
+
+    def h_equal(it, ctx, nd, args):
+        if args[0] is ctx.c15_tok and args[1] == '(':
+            return 1
+        return _fresh_bool(ctx, 'equal')
+
+    def h_typename(it, ctx, nd, args):
+        ty = Obj('Type', lazy=True, label='ty')
+        ty.fields.update(dict(size=4, align=4))
+        ctx.c15_ty = ty
+        return ty
+
+    def h_skip(it, ctx, nd, args):
+        return Obj('Token', lazy=True, label=ctx.fresh('tok'))
+
+    def h_init(it, ctx, nd, args):
+        ctx.emit('init', _final(it, args[2]) if len(args) > 2 else None, nd.line)
+        return None
+
+    def h_varnode(it, ctx, nd, args):
+        ctx.emit('var_node', _final(it, args[0]) if args else None, nd.line)
+        n_ = Obj('Node', lazy=True, label='var-node')
+        n_.fields['var'] = args[0] if args else 0
+        return n_
+    it = pe.interp(('postfix',) + tuple(keep), opaque=('primary', 'funcall', 'new_lvar', 'lvar_initializer', 'new_binary', 'new_unary', 'struct_ref', 'new_inc_dec'),
+                   cut={'equal': h_equal, 'is_typename': lambda it_, ctx, nd, args: 1, 'typename': h_typename, 'skip': h_skip, 'gvar_initializer': h_init, 'new_var_node': h_varnode},
+                   globals_={'globals': lambda ctx: ctx.c15_g0, 'locals': lambda ctx: ctx.c15_l0, 'scope': lambda ctx: ctx.c15_scope, 'in_gvar_initializer': lambda ctx: ctx.c15_ingv})
+    n = 0
+    for where in ('file-scope', 'static-initialiser', 'function-body'):
+        def mk(ctx, where=where):
+            ctx.c15_g0 = Obj('Obj', lazy=True, label='earlier-globals')
+            ctx.c15_l0 = Obj('Obj', lazy=True, label='earlier-locals')
+            sc = Obj('Scope', lazy=True, label='scope')
+            sc.fields['next'] = 0 if where == 'file-scope' else Obj('Scope', lazy=True, label='outer-scope')
+            ctx.c15_scope = sc
+            ctx.c15_ingv = int(where == 'static-initialiser')
+            ctx.c15_tok = Obj('Token', lazy=True, label='tok')
+            return [Sym('rest', 'Token **'), ctx.c15_tok]
+        res = _explore(it, 'postfix', mk)
+        rets = [(c, o) for c, o in res if o[0] == 'ret']
+        key = 'compound-literal/' + where
+        if not rets:
+            ag.undecided(key + '/evaluation', 'postfix() has no returning path for `(T){...}` (%s)' % where, fline)
+            continue
+        for ctx, out in rets:
+            n += 1
+            g = _final(it, ctx.globals.get('globals', ctx.c15_g0))
+            inits = [e for e in ctx.events if e[0] == 'init']
+            facts = {'compound literal': where, 'path': ctx.trail[-4:]}
+            if where == 'function-body':
+                ag.note(key + '/automatic-object', g is ctx.c15_g0 and not inits,
+                        'a compound literal in a function body is put on `globals` / initialised at translation time: it has automatic storage (C11 6.5.2.5p5), '
+                        'one object per evaluation of the enclosing block, initialised each time', fline, facts)
+                continue
+            isobj = isinstance(g, Obj) and g is not ctx.c15_g0 and not g.lazy
+            ag.note(key + '/is-anonymous-global', isobj and _final(it, ctx.globals.get('locals', ctx.c15_l0)) is ctx.c15_l0,
+                    'a compound literal with static storage duration (%s) is not created as a new object on `globals`' % where, fline, facts)
+            if not isobj:
+                continue
+            F = lambda f: _final(it, g.fields.get(f, 0))
+            facts['object'] = {k: repr(F(k)) for k in ('name', 'is_static', 'is_definition', 'is_local', 'is_tls', 'is_tentative')}
+            ag.note(key + '/internal-linkage', F('is_static') == 1 and F('is_definition') == 1 and not F('is_local') and not F('is_function') and isinstance(F('name'), str) and F('name').startswith('.L'),
+                    'a static compound literal gets name=%r is_static=%r is_definition=%r is_local=%r: it must be a defined static object under a unique assembler-local name' % (F('name'), F('is_static'), F('is_definition'), F('is_local')), fline, facts)
+            ag.note(key + '/initializer', len(inits) == 1 and inits[0][1] is g,
+                    'the braces of a static compound literal are not evaluated at translation time into the object (gvar_initializer calls: %d)' % len(inits), fline, facts)
+            vn = [e for e in ctx.events if e[0] == 'var_node']
+            r = _final(it, out[1])
+            ag.note(key + '/value-is-the-object', len(vn) == 1 and vn[0][1] is g and isinstance(r, Obj) and _final(it, r.fields.get('var')) is g,
+                    'the expression does not denote the anonymous object created for the literal', fline, facts)
+            tl = F('is_tls')
+            if tl not in (0, 1):
+                ag.undecided(key + '/emitted-where-declared', 'is_tls of the literal\'s object is not concrete: %r' % (tl,), fline)
+            else:
+                ag.note(key + '/ordinary-storage', tl == 0, 'a compound literal is flagged thread-local: no declaration asked for that', fline, facts)
+                _judge_built_state(pe.cg, ag, key, 'a static compound literal', F, tl, 1, fline, facts)
+    if n == 0:
+        raise AnalysisBroken('postfix(): compound-literal arm not reached')
+    ag.flush(fline)
+
+
+def r156_gvar_initializer(pe, rep, keep):
+    """the parser rules above cut gvar_initializer (\"the object now has an initialiser\"): it installs init_data and leaves every linkage/storage flag alone"""
+    u = pe.u
+    ag = Agg(rep, 'R15.6', PU, 'gvar_initializer')
+    fline = u.fn('gvar_initializer').line
+    FL = ('is_static', 'is_definition', 'is_tentative', 'is_tls')
+
+    def h_initializer(it, ctx, nd, args):
+        return Obj('Initializer', lazy=True, label='init')
+    it = pe.interp(('gvar_initializer',), opaque=('write_gvar_data',), cut={'initializer': h_initializer})
+    n = 0
+    for fl in _bits(FL):
+        def mk(ctx, fl=fl):
+            v = Obj('Obj', lazy=True, label='var')
+            v.fields.update(fl)
+            v.fields.update(dict(is_function=0, is_local=0, init_data=0, rel=0, name=Sym('var.name', 'char *')))
+            ty = Obj('Type', lazy=True, label='ty')
+            ty.fields['size'] = Sym('ty.size', 'int')
+            v.fields['ty'] = ty
+            ctx.c15_v = v
+            return [Sym('rest', 'Token **'), Obj('Token', lazy=True, label='tok'), v]
+        res = _explore(it, 'gvar_initializer', mk)
+        rets = [(c, o) for c, o in res if o[0] == 'ret']
+        if not rets:
+            ag.undecided('evaluation', 'gvar_initializer has no returning path', fline)
+            continue
+        for ctx, out in rets:
+            n += 1
+            v = ctx.c15_v
+            now = {k: _final(it, v.fields.get(k)) for k in FL + ('is_function', 'is_local')}
+            was = dict(fl, is_function=0, is_local=0)
+            ch = ['%s: %r -> %r' % (k, was[k], now[k]) for k in sorted(was) if now[k] != was[k]]
+            facts = {'object before': fl, 'path': ctx.trail[-4:]}
+            ag.note('flags-unchanged', not ch,
+                    'parsing the initialiser rewrites the linkage/storage flags of the object (%s): the states global_variable() / declaration() are verified to build '
+                    'are not the states emit_data receives' % ', '.join(ch), fline, facts)
+            d = _final(it, v.fields.get('init_data'))
+            ag.note('init-data-installed', not (isinstance(d, int) and d == 0),
+                    'after gvar_initializer the object still has no init_data: emit_data treats it as zero-initialised (.bss / .comm) and the initialiser is lost', fline, facts)
+    if n == 0:
+        raise AnalysisBroken('gvar_initializer: nothing explored')
+    ag.flush(fline)
+
+
+JUDGED_WRITERS = {PU: ('global_variable', 'declaration', 'postfix', 'gvar_initializer', 'scan_globals', 'new_gvar', 'new_anon_gvar', 'new_var', 'new_string_literal'),
+                  CGU: ('emit_data',)}
+
+
+def r156_flag_writers(pe, rep, keep):
+    """closure: `is_tentative` decides between a common symbol and a section of its own; the rules of this module evaluate it where the functions
+    above leave it.  Any other function that writes the flag is outside every evaluation"""
+    P = pe.P
+    nw = 0
+    for un in P.unit_names:
+        uu = P.unit(un)
+        if not any(f == 'is_tentative' for f, _, _ in uu.records.get('Obj', [])):
+            continue
+        ag = Agg(rep, 'R15.6', un, 'is_tentative-writers')
+        env = pe if un == PU else UnitEnv(P, pe.cg, un)
+        judged = env.inlined([f for f in JUDGED_WRITERS.get(un, ()) if f in uu.functions], set())
+        first = 0
+        for fname, fd in uu.functions.items():
+            for nd in fd.walk():
+                lhs = None
+                if nd.kind in ('BinaryOperator', 'CompoundAssignOperator') and nd.opcode and nd.opcode.endswith('=') and nd.opcode not in ('==', '!=', '<=', '>=') and nd.inner:
+                    lhs = nd.inner[0].strip()
+                elif nd.kind == 'UnaryOperator' and nd.opcode in ('++', '--') and nd.inner:
+                    lhs = nd.inner[0].strip()
+                if lhs is None or lhs.kind != 'MemberExpr' or lhs.name != 'is_tentative':
+                    continue
+                nw += 1
+                first = first or nd.line
+                if fname in judged:
+                    ag.note('evaluated/' + fname, True)
+                else:
+                    ag.undecided('not-evaluated/' + fname,
+                                 '%s() writes is_tentative, and no rule of this module evaluates the object states that function leaves: whether a thread-local or initialised '
+                                 'object can reach emit_data flagged tentative is not decided' % fname, nd.line)
+        ag.flush(first)
+    if nw == 0:
+        rep.undecided('R15.6', '%s:is_tentative-writers:writers-found' % PU, 'no store to Obj.is_tentative was found in any unit: the writers of the flag are not recognised')
 
 
 # =============================================================================================
